@@ -44,3 +44,27 @@ Definition nonempty (s : string) : bool := negb (String.eqb s "").
 
 (** strings with bytes that cannot be written in a literal: given as a list of byte values *)
 Definition bytes_str (l : list N) : string := fold_right (fun b s => String (ascii_of_N b) s) "" l.
+
+(** well-formed UTF-8, as Go's utf8.ValidString (what the protobuf encoder demands of a string
+    field): shortest form only, no surrogates, nothing above U+10FFFF.  [need] = continuation
+    bytes still owed; [lo],[hi] = bounds of the next continuation byte. *)
+Fixpoint utf8_go (s : string) (need : nat) (lo hi : N) : bool :=
+  match s with
+  | EmptyString => match need with O => true | _ => false end
+  | String c s' =>
+    let b := N_of_ascii c in
+    match need with
+    | S k => ((lo <=? b) && (b <=? hi))%N && utf8_go s' k 128 191
+    | O =>
+      if (b <=? 127)%N then utf8_go s' 0 128 191
+      else if ((194 <=? b) && (b <=? 223))%N then utf8_go s' 1 128 191
+      else if (b =? 224)%N then utf8_go s' 2 160 191
+      else if (b =? 237)%N then utf8_go s' 2 128 159
+      else if ((225 <=? b) && (b <=? 239))%N then utf8_go s' 2 128 191
+      else if (b =? 240)%N then utf8_go s' 3 144 191
+      else if ((241 <=? b) && (b <=? 243))%N then utf8_go s' 3 128 191
+      else if (b =? 244)%N then utf8_go s' 3 128 143
+      else false
+    end
+  end.
+Definition utf8_ok (s : string) : bool := utf8_go s 0 128 191.
